@@ -733,7 +733,7 @@ def judgeLine2 (j : JSt) (lineNo : Nat) (opLine obsLine : String) : JSt :=
         if ¬ m.judged then j
         else
           let prog : List (Option ACmdC) := S.parseScript Ss.isWs Ss.pV Ss.pL Ss.pD text
-          let (r', want, k, valid) := refScript m.n m.cap prog m.r [] 0 true
+          let (r', want, k, valid, calls) := refScript m.n m.cap prog m.r [] 0 true []
           if ¬ valid then j.setMon a { m with judged := false }
           else
             let o := parseObs obsLine
@@ -751,14 +751,14 @@ def judgeLine2 (j : JSt) (lineNo : Nat) (opLine obsLine : String) : JSt :=
             let j := if o.keys ≠ R.keys r' m.cap then
                 j.reject "C14" lineNo s!"after the script the graph holds {showNats o.keys}, the same calls give {showNats (R.keys r' m.cap)}"
               else j
-            let newIds := o.keys.filter (· ∉ m.prevKeys)
-            let h0 : Hist := m.hist
-            let newEdges : List (Nat × List (Label × Nat)) := r'.ids.map (fun v => (v, r'.edg v))
-            let newPuts : List (Nat × List UInt8) := r'.ids.filterMap (fun v => (r'.dat v).map (fun d => (v, d.toBytes)))
-            let newUnread : List Nat := r'.ids.filter (fun v => r'.unr v)
-            let newPairs : List (Nat × Nat) := h0.pairs ++ r'.ids.flatMap (fun v => (r'.edg v).map (fun e => (v, e.2)))
-            let newBound : List Nat := h0.bound ++ r'.ids.flatMap (fun v => (r'.edg v).flatMap (fun e => [v, e.2]))
-            let hist' : Hist := Hist.mk newPairs newUnread newBound newEdges newPuts (h0.issued ++ newIds)
+            -- the history-based monitors replay the concrete calls the script made, one by one
+            let (hist', _, _) := calls.foldl (fun (acc : Hist × R × List Nat) op =>
+              let (hs, rr, ks) := acc
+              let rr' := (R.step m.cap rr op).1
+              let out := match (R.step m.cap rr op).2 with
+                | .id i => toString i
+                | _ => ""
+              (hs.update op ks (R.keys rr' m.cap) out, rr', R.keys rr' m.cap)) (m.hist, m.r, m.prevKeys)
             -- after a malformed command the allocator may have been consulted by the failing command: stop judging
             j.setMon a { m with r := r', prevKeys := o.keys, origin := "C14", hist := hist', judged := wellFormed }
       | none => j
